@@ -260,12 +260,20 @@ func (a *Analysis) ruleT3() {
 	maps := 0
 	usedGuard := map[*ssa.Global]string{}
 	for _, lc := range a.langCtxs() {
-		n := int64(12)
-		ctx := &Ctx{Name: "T3:N=12,lang=" + lc.Name, TokCount: &n, Lang: &lc.V}
-		e := a.eval(a.CM, ctx)
 		var mapAV AV
 		var site ssa.Instruction
-		for _, c := range e.Calls {
+		var ctx *Ctx
+		sizes := specWordCounts()
+		if a.Gate3 != nil && len(a.Gate3.passed()) > 0 {
+			sizes = a.Gate3.passed()
+		}
+		var calls []CallRec
+		for _, n := range sizes {
+			n := n
+			ctx = &Ctx{Name: fmt.Sprintf("T3:N=%d,lang=%s", n, lc.Name), TokCount: &n, Lang: &lc.V}
+			calls = append(calls, a.eval(a.CM, ctx).Calls...)
+		}
+		for _, c := range calls {
 			if c.Callee == "lookup" {
 				if k, ok := c.Args[1].(StrV); !ok || k.Kind != skTok {
 					continue // not the word lookup (e.g. a table of valid sizes)
